@@ -255,5 +255,7 @@ def rank2(forms: list[tuple[int, int]]) -> int:
 
 
 def _extra(ctx):
+    from ..engines import keykind as _kk
+    _kk.check_function(ctx, "AbsoluteSequence.get_message_pairings", "KEY", expect_min=2)
     from ..engines.structure import interleave_rule
     interleave_rule(ctx)
